@@ -157,10 +157,19 @@ def bool_(x=False):
 def str_(x='', *a):
     if isinstance(x, SymStr):
         return x
+    if isinstance(x, SymEnum) and PRECISE_NUM_STR:
+        return builtins.str(x.concretize())
     if isinstance(x, SymEnum):
         ex = symx.cur()
         # StringyEnum.__str__ is the member name: never empty.  None -> 'None'
         return SymStr(tm.uf('str_enum_%s' % x.cls.__name__.replace(' ', '_'), (x.term,), 'I'), tm.FALSE, tm.FALSE)
+    if isinstance(x, Sym) and PRECISE_NUM_STR:
+        from . import bstr
+        if isinstance(x, SymBool):
+            return 'True' if symx.cur().decide(x.term) else 'False'
+        if isinstance(x, SymInt):
+            return bstr.render_int(x.term)
+        raise Unsupported('str(float) is not modelled precisely')
     if isinstance(x, Sym):
         return SymStr(tm.uf('str_num', (tm.to_real(x.term),), 'I'), tm.FALSE, tm.FALSE)
     hook = getattr(type(x), '__hv_str__', None)
@@ -391,6 +400,7 @@ def fstr(parts):
 
 
 _fmt_hook = None
+PRECISE_NUM_STR = False
 
 
 def strmeth(const, name, args, kwargs):
